@@ -299,4 +299,144 @@ class C15f(Obligation):
         ctx.check(set(k.tag for k in mro) == set('K%d' % i for i in reach), 'exactly the class and all its ancestors')
 
 
-OBLIGATIONS = [C15a, C15a2, C15a3, C15e, C15f]
+from jedi.inference import cache as jcache  # noqa: E402
+
+
+class C15b(Obligation):
+    id = 'C15.b'
+    title = 'statement re-entrancy guard: a node already being inferred is refused, the stack is restored on every exit'
+    pattern = 'P2 inductive step over an arbitrary stack of nodes'
+    assumptions = ('the stack holds n<=4 node identities (symbolic ints in 0..3); the guarded body returns or raises',)
+
+    def configs(self, tier):
+        return [dict(n=n) for n in (0, 1, 2, 3, 4)]
+
+    def scenario(self, ctx, cfg):
+        n = cfg['n']
+        stack = [ctx.int('on_stack%d' % i, 0, 3) for i in range(n)]
+        before = list(stack)
+        node = ctx.int('node', 0, 3)
+        raises = ctx.flag('body_raises')
+        state = Obj(recursion_detector=Obj(pushed_nodes=stack))
+        raw = recursion.execution_allowed.__wrapped__
+        ctx.force(raw)
+        seen = []
+
+        def body():
+            with recursion.execution_allowed(state, node) as allowed:
+                seen.append(allowed)
+                seen.append(len(stack))
+                if raises:
+                    raise KeyError('boom')
+            return 'done'
+        out = ctx.call(body)
+        already = ctx.Or(*[s == node for s in before]) if before else False
+        ctx.check(len(seen) == 2, 'the body runs once')
+        if len(seen) == 2:
+            ctx.check(ctx.iff(seen[0], ctx.Not(already)), 'allowed iff the node is not already being inferred')
+            ctx.check(seen[1] == (n + 1 if seen[0] else n), 'an allowed node is on the stack while its body runs')
+        ctx.check(len(stack) == n and all(a is b for a, b in zip(stack, before)),
+                  'the stack is exactly as before on normal and exceptional exit')
+        if raises:
+            ctx.check(out.raised(KeyError), 'exceptions of the body propagate')
+
+
+class Holder:
+    _pysym_holder = True
+
+    def __init__(self, tag, state):
+        self.tag = tag
+        self.inference_state = state
+
+    def __hash__(self):
+        return hash(self.tag)
+
+    def __eq__(self, other):
+        return isinstance(other, Holder) and self.tag == other.tag
+
+
+class C15c(Obligation):
+    id = 'C15.c'
+    title = 'memoisation with a recursion default: a re-entrant call gets the default, the body runs once per key, tables are per inference state'
+    pattern = 'P2 (re-entrancy driven by a symbolic call pattern)'
+    assumptions = (
+        'a memoised method whose body re-enters itself on a key chosen symbolically among {same object, other object} '
+        'up to depth 3; two inference states with their own memo tables',
+    )
+
+    def scenario(self, ctx, cfg):
+        state_a, state_b = Obj(memoize_cache={}), Obj(memoize_cache={})
+        objs = [Holder('x', state_a), Holder('y', state_a), Holder('x', state_b)]
+        plan = [ctx.choice('reenter_on_%d' % d, 4) for d in range(3)]      # 0..2 = object index, 3 = stop
+        runs = []
+        ctx.int('unused')
+
+        def body(obj, depth=0):
+            runs.append((obj.tag, id(obj.inference_state), depth))
+            if depth < 3 and plan[depth] < 3:
+                inner = memo(objs[plan[depth]], depth=depth + 1)
+                return ('value', obj.tag, depth, inner)
+            return ('value', obj.tag, depth, None)
+        memo = jcache._memoize_default(default='DEFAULT')(body)
+        ctx.force(memo)
+        out = ctx.call(memo, objs[0], depth=0)
+        ctx.check(out.exc is None, 'never raises, never recurses without bound')
+        if out.exc is not None:
+            return
+        # the body runs at most once per (object, kwargs) key that is in flight
+        keys = [(t, s, d) for t, s, d in runs]
+        ctx.check(len(keys) == len(set(keys)), 'no key is computed twice while it is in flight')
+        ctx.check(len(runs) <= 4, 'the recursion is cut by the default value')
+        # tables are per inference state
+        for fn, table in state_a.memoize_cache.items():
+            for key in table:
+                ctx.check(key[0].inference_state is state_a, 'entries of state A live in the table of state A')
+        for fn, table in state_b.memoize_cache.items():
+            for key in table:
+                ctx.check(key[0].inference_state is state_b, 'entries of state B live in the table of state B')
+        again = ctx.call(memo, objs[0], depth=0)
+        ctx.check(again.exc is None and again.value == out.value and len(runs) == len(keys),
+                  'a finished key is served from the table, the final value replaced the default')
+
+
+class C15d(Obligation):
+    id = 'C15.d'
+    title = 'generator memo: elements are produced once and replayed in order; re-entrant iteration stops at the sentinel'
+    pattern = 'P2'
+    assumptions = ('a memoised generator method producing k<=3 elements which may re-enter its own iteration at a symbolic point',)
+
+    def configs(self, tier):
+        return [dict(k=k) for k in (0, 1, 2, 3)]
+
+    def scenario(self, ctx, cfg):
+        k = cfg['k']
+        state = Obj(memoize_cache={})
+        obj = Holder('g', state)
+        reenter_at = ctx.choice('reenter_before_element', k + 1)       # k = never
+        produced = []
+        inner_seen = []
+        ctx.int('unused')
+
+        def gen(o):
+            for i in range(k):
+                if i == reenter_at:
+                    inner_seen.append(list(cached(o)))
+                produced.append(i)
+                yield ('element', i)
+        cached = jcache.inference_state_method_generator_cache()(gen)
+        ctx.force(cached)
+        out = ctx.call(lambda: list(cached(obj)))
+        ctx.check(out.exc is None, 'never raises')
+        if out.exc is not None:
+            return
+        ctx.check(out.value == [('element', i) for i in range(k)], 'all elements, in order')
+        ctx.check(produced == list(range(k)), 'every element is produced exactly once')
+        if reenter_at < k:
+            ctx.check(inner_seen == [[('element', i) for i in range(reenter_at)]],
+                      'a re-entrant iteration sees the elements produced so far and then stops (no unbounded recursion)')
+        again = ctx.call(lambda: list(cached(obj)))
+        ctx.check(again.exc is None and again.value == out.value and produced == list(range(k)),
+                  'a second iteration replays the memo without running the generator again')
+
+
+OBLIGATIONS = [C15a, C15a2, C15a3, C15b, C15c, C15d, C15e, C15f]
